@@ -55,7 +55,15 @@ func runC04(w *World) {
 		calls = append(calls, c)
 		c.invAt = w.Now()
 		c.invSeq = w.Ev("WriteUpdate invoke #%d by %s on session %d (%d bytes)", c.n, name, ss.N, len(c.body))
-		c.err = ss.Writer.WriteUpdate(c.body)
+		// the caller owns its buffer again once WriteUpdate has returned
+		arg := append([]byte(nil), c.body...)
+		if len(c.body) == 0 && w.Draw(2, "nilbody") == 0 {
+			arg = nil
+		}
+		c.err = ss.Writer.WriteUpdate(arg)
+		for i := range arg {
+			arg[i] = 0xAA
+		}
 		c.retAt = w.Now()
 		c.retSeq = w.Ev("WriteUpdate return #%d err=%v", c.n, c.err)
 		c.returned = true
